@@ -5,6 +5,7 @@ import (
 	"time"
 
 	hydra "github.com/hydraide/hydraide/app/core/hydra/swamp"
+	"github.com/hydraide/hydraide/app/core/hydra/swamp/beacon"
 	"github.com/hydraide/hydraide/app/core/hydra/swamp/treasure"
 )
 
@@ -82,12 +83,15 @@ func applyTimeRange(candidates []treasure.Treasure, beaconType hydra.BeaconType,
 		// the time window belongs to the time-ordered indexes; the key index ignores it
 		return candidates
 	}
-	var fromNs, toNs int64
-	if fromTime != nil {
-		fromNs = fromTime.UnixNano()
+	fromNs, toNs, hasFrom, hasTo, empty := beacon.WindowNanos(fromTime, toTime)
+	if empty {
+		return candidates[:0]
 	}
-	if toTime != nil {
-		toNs = toTime.UnixNano()
+	if !hasFrom {
+		fromTime = nil
+	}
+	if !hasTo {
+		toTime = nil
 	}
 	out := candidates[:0]
 	for _, t := range candidates {
